@@ -34,27 +34,28 @@ CONSTANTS MaxFeats,         \* features per document
           MaxDocs,          \* documents per history (the last one is the observed one)
           AnyEnables, ParseRestores, ClassPerDoc, RegsPerDoc
 
-Regs == {"parindent", "tolerance"}
-Feats == {"assign_parindent", "assign_tolerance", "use_parindent", "use_tolerance", "any", "math", "pmath", "list", "printindex"}
+Regs == {"parindent", "tolerance", "LTleft"}        \* two built-in parameters and one register defined by a package (longtable)
+Feats == {"assign_parindent", "assign_tolerance", "assign_LTleft", "use_parindent", "use_tolerance", "use_LTleft", "any", "math", "pmath", "list",
+          "listinput", "mathinput", "section", "printindex"}
 Endings == {"end", "mathopen", "listopen", "boom", "ifraise"}
 Classes == {"article", "book"}
 
 InitW == [plevel |-> 0, math |-> 0, list |-> 0, dmath |-> FALSE, regs |-> [r \in Regs |-> "init"], idx |-> "chapter"]
-InitL == [regs |-> [r \in Regs |-> "none"], idx |-> "none"]
+InitL == [regs |-> [r \in Regs |-> "none"], idx |-> "none", secfmt |-> "chaptered"]
 
-RegOf(f) == IF f \in {"assign_parindent", "use_parindent"} THEN "parindent" ELSE "tolerance"
+RegOf(f) == IF f \in {"assign_parindent", "use_parindent"} THEN "parindent" ELSE IF f \in {"assign_LTleft", "use_LTleft"} THEN "LTleft" ELSE "tolerance"
 
 (* one feature: [w, l, obs] -> [w, l, obs] *)
 Step(f, s) ==
     LET w == s.w
         l == s.l
-    IN CASE f \in {"assign_parindent", "assign_tolerance"} ->
+    IN CASE f \in {"assign_parindent", "assign_tolerance", "assign_LTleft"} ->
               (* ParameterCommand.invoke: runs only while parameters are enabled; the value goes on the class *)
               IF w.plevel >= 0
               THEN IF RegsPerDoc THEN [s EXCEPT !.l.regs[RegOf(f)] = "v1", !.obs = Append(@, "assigned")]
                                  ELSE [s EXCEPT !.w.regs[RegOf(f)] = "v1", !.obs = Append(@, "assigned")]
               ELSE [s EXCEPT !.obs = Append(@, "notassigned")]
-         [] f \in {"use_parindent", "use_tolerance"} ->
+         [] f \in {"use_parindent", "use_tolerance", "use_LTleft"} ->
               [s EXCEPT !.obs = Append(@, IF l.regs[RegOf(f)] # "none" THEN l.regs[RegOf(f)] ELSE w.regs[RegOf(f)])]
          [] f = "any" ->        \* readArgumentAndSource(type = any): disable on entry, enable on return only if repaired
               [s EXCEPT !.w.plevel = @ - 1 + (IF AnyEnables THEN 1 ELSE 0)]
@@ -64,6 +65,12 @@ Step(f, s) ==
               [s EXCEPT !.obs = Append(@, IF w.dmath THEN "text" ELSE "math")]
          [] f = "list" ->       \* a balanced list: depth +1 -1
               [s EXCEPT !.obs = Append(@, "list")]
+         [] f = "listinput" ->  \* a list that \input's a file between \begin and \end: still balanced
+              [s EXCEPT !.obs = Append(@, "list")]
+         [] f = "mathinput" ->  \* $ .. \input{file} .. $
+              [s EXCEPT !.obs = Append(@, IF w.math = 0 THEN "math" ELSE "text")]
+         [] f = "section" ->    \* the number of a section: the counter classes are made per document by the document class
+              [s EXCEPT !.obs = Append(@, l.secfmt)]
          [] f = "printindex" -> \* the level the index is digested at
               [s EXCEPT !.obs = Append(@, IF l.idx # "none" THEN l.idx ELSE w.idx)]
 
@@ -72,7 +79,7 @@ Run(fs, s) == IF fs = <<>> THEN s ELSE Run(Tail(fs), Step(Head(fs), s))
 
 (* \documentclass: article patches the index classes; book leaves them alone *)
 Header(cls, s) == IF cls = "article"
-                  THEN IF ClassPerDoc THEN [s EXCEPT !.l.idx = "section"] ELSE [s EXCEPT !.w.idx = "section"]
+                  THEN IF ClassPerDoc THEN [s EXCEPT !.l.idx = "section", !.l.secfmt = "flat"] ELSE [s EXCEPT !.w.idx = "section", !.l.secfmt = "flat"]
                   ELSE s
 
 Finish(e, s) == CASE e = "end" -> s
